@@ -204,6 +204,11 @@ pub trait Subject: Sized + 'static {
     fn validate_op(_s: &Self::St, _op: &Self::Op) -> Result<(), String> {
         Ok(())
     }
+    /// per present key: (key, entry witness = get(k).rm_clock, witnesses of the nested members read through the nested value's own
+    /// contains(m).rm_clock); empty for subjects without nested sets (C17 misuse oracle for nested members)
+    fn nested_witnesses(_s: &Self::St) -> Vec<(String, Clock, Vec<(String, u8, u64)>)> {
+        Vec::new()
+    }
     fn validate_merge(_a: &Self::St, _b: &Self::St) -> Result<(), String> {
         Ok(())
     }
